@@ -142,7 +142,9 @@ class JSONCodec(AbstractMetadataCodec):
 
     @classmethod
     def is_schema_trivial(self, schema: Mapping) -> bool:
-        return len(schema.get("properties", {})) == 0
+        # Validation can only be skipped when the schema constrains nothing:
+        # "required", "additionalProperties", "type", ... reject objects too.
+        return set(schema.keys()) <= {"codec"}
 
     def __init__(self, schema: Mapping[str, Any]) -> None:
         try:
